@@ -197,8 +197,15 @@ impl World {
             grades.push(q6((r.f64() - 0.5) * 0.2));
         }
         let mut vertex_cols = vec!["vertex_id".to_string(), "x".to_string(), "y".to_string()];
-        if r.chance(0.3) {
-            vertex_cols.push("elevation".to_string());
+        if r.chance(0.4) {
+            // extra columns, some named almost like the known ones (they must be ignored all the same)
+            let n = r.range(1, 2);
+            for _ in 0..n {
+                let c = r.pick(&["elevation", "X", "Y", " x", "y ", "Vertex_Id", "name", "VERTEX_ID"]).to_string();
+                if !vertex_cols.contains(&c) {
+                    vertex_cols.push(c);
+                }
+            }
         }
         if r.chance(0.3) {
             r.shuffle(&mut vertex_cols);
@@ -267,7 +274,8 @@ impl World {
                     "vertex_id" => i.to_string(),
                     "x" => fmt_f(*x),
                     "y" => fmt_f(*y),
-                    _ => format!("{}", 1600 + i),
+                    "name" | "Y" => format!("v{}", i),
+                    _ => format!("{}", 481000 + i),
                 })
                 .collect();
             s.push_str(&row.join(","));
